@@ -1,5 +1,6 @@
 import Oryx.Base.Text
 import Oryx.Model.Rtmp
+import Oryx.Spec.RtmpChunk
 namespace Oracle.Rtmp
 open Oryx Oryx.Rtmp
 
@@ -28,8 +29,61 @@ def readUpTo : Nat → Reader → Bytes → List Msg → (List Msg × String × 
     | .err e => (acc.reverse, e.str, st, bs.length)
     | .panic => (acc.reverse, "panic", st, bs.length)
 
+/-! ### C02: abstract chunker (Spec.RtmpChunk). Event = `cid.form.fmt.tsField.len.ty.sid.DATA`, trace = events joined by `,` (`_` = empty). -/
+
+open Oryx.Spec.RtmpChunk in
+def parseEv (s : String) : Option ChunkEv :=
+  match s.splitOn "." with
+  | [cid, form, fmt, ts, len, ty, sid, d] => do
+    let cid ← cid.toNat?; let form ← form.toNat?; let fmt ← fmt.toNat?; let ts ← ts.toNat?
+    let len ← len.toNat?; let ty ← ty.toNat?; let sid ← sid.toNat?; let d ← parseBytes d
+    pure { cid := cid, bhForm := form, fmt := fmt, tsField := ts, len := len, ty := ty, sid := sid, data := d }
+  | _ => none
+
+open Oryx.Spec.RtmpChunk in
+def parseTrace (s : String) : Option (List ChunkEv) :=
+  if s == "_" then some [] else (s.splitOn ",").mapM parseEv
+
+open Oryx.Spec.RtmpChunk in
+def specMsgsStr (l : List Message) : String :=
+  if l.isEmpty then "_" else ",".intercalate (l.map fun m => s!"{m.cid}.{m.ty}.{m.sid}.{m.ts}.{toHex m.payload}")
+
+/-- One pass over the trace with `Spec.RtmpChunk.step`: messages of the longest prefix the sender rules
+accept (= `specMessages` when the whole trace is conformant), its length, and along that prefix
+`NoExtendedDelta` (no event with `UsesExtDelta`) and "the last accepted event completed a message". -/
+def specPrefix : Spec.RtmpChunk.Sender → List Spec.RtmpChunk.ChunkEv → List Spec.RtmpChunk.Message → Nat → Bool → Bool →
+    (List Spec.RtmpChunk.Message × Nat × Bool × Bool)
+  | _, [], acc, n, noExt, ends => (acc.reverse, n, noExt, ends)
+  | s, e :: tr, acc, n, noExt, ends =>
+    match Spec.RtmpChunk.step false s e with
+    | none => (acc.reverse, n, noExt && !decide (Spec.RtmpChunk.UsesExtDelta s e), ends)
+    | some (s', out) =>
+      specPrefix s' tr (match out with | some m => m :: acc | none => acc) (n + 1)
+        (noExt && !decide (Spec.RtmpChunk.UsesExtDelta s e)) out.isSome
+
+def b01 (b : Bool) : String := if b then "1" else "0"
+
 def handle (op : String) (args : List String) : Option String :=
   match op, args with
+  -- wire bytes, messages of the longest conformant prefix (= specMessages when conformant),
+  -- events accepted / total, NoExtendedDelta, EndsComplete, Strict
+  | "rtmp.spec.chunk", [tr] => do
+    let tr ← parseTrace tr
+    let (ms, n, noExt, ends) := specPrefix {} tr [] 0 true true
+    -- last field: NOT the specification — the messages under the "extended timestamp is always absolute"
+    -- reading (K2), `=` when they are the spec's
+    let abs := Spec.RtmpChunk.messagesAbsExt tr
+    let absS := if n != tr.length then "-" else if abs == ms then "=" else specMsgsStr abs
+    pure s!"{toHex (Spec.RtmpChunk.specBytes tr)} {specMsgsStr ms} {n}/{tr.length} {b01 noExt} {b01 (ends && n == tr.length)} {b01 (decide (Spec.RtmpChunk.Strict tr))} {absS}"
+  -- the same through the definitions the theorems use (slower: one run per predicate); for cross-checking
+  | "rtmp.spec.defs", [tr] => do
+    let tr ← parseTrace tr
+    pure s!"{specMsgsStr (Spec.RtmpChunk.specMessages tr)} {b01 (decide (Spec.RtmpChunk.Conformant tr))} {b01 (decide (Spec.RtmpChunk.NoExtendedDelta tr))} {b01 (decide (Spec.RtmpChunk.EndsComplete tr))} {b01 (decide (Spec.RtmpChunk.Strict tr))}"
+  -- the model reader on the wire bytes of a trace (saves sending the wire back)
+  | "rtmp.spec.read", [k, tr] => do
+    let k ← k.toNat?; let tr ← parseTrace tr
+    let (ms, status, st, left) := readUpTo k {} (Spec.RtmpChunk.specBytes tr) []
+    pure s!"{msgsStr ms} {status} {st.inChunk} {left}"
   | "rtmp.write", [c, ms] => do
     let c ← c.toNat?; let ms ← parseMsgs ms
     pure ((writeAll c ms).str toHex)
